@@ -3,6 +3,7 @@ from vlib import gen, harness, pipeline, mib
 from vlib.layout import Layout
 
 ID = 'C02'
+CONTRACTS = True     # icontract recording contracts ride along (vlib/contracts.py)
 LEVEL = 'exploration'
 RULE = ('grammar-directed generator choosing every optional clause independently (UNITS, REFERENCE, '
         'DEFVAL of each notation, INDEX/AUGMENTS/IMPLIED, revisions, compliance modules with GROUP / '
